@@ -12,6 +12,7 @@ import json, os, re, subprocess, sys, time
 VERIF = os.path.dirname(os.path.dirname(os.path.abspath(__file__)))
 SYMARK = os.path.join(VERIF, "symark", "target", "release", "symark")
 TD = os.path.join(VERIF, "mir", "target")
+REPO = os.environ.get("VERIF_REPO", "/repo")
 FQ = r"Fp<ark_ff::MontBackend<(?:curve::zorro::)?fq::FqConfig, 4>, 4>"
 
 
@@ -21,8 +22,8 @@ def sh(cmd, **kw):
 
 def dump_mir():
     env = dict(os.environ, CARGO_TARGET_DIR=TD, CARGO_NET_OFFLINE="true")
-    sh(["cargo", "+nightly", "clean", "--offline", "-p", "ark-bulletproofs"], cwd="/repo", env=env)
-    r = sh(["cargo", "+nightly", "rustc", "--offline", "--lib", "--", "-Zunpretty=mir"], cwd="/repo", env=env)
+    sh(["cargo", "+nightly", "clean", "--offline", "-p", "ark-bulletproofs"], cwd=REPO, env=env)
+    r = sh(["cargo", "+nightly", "rustc", "--offline", "--lib", "--", "-Zunpretty=mir"], cwd=REPO, env=env)
     if r.returncode != 0 or not r.stdout.strip():
         print(r.stderr[-2000:])
         return None
@@ -33,7 +34,7 @@ class CannotEncode(Exception):
     pass
 
 
-def translate(body, p, consts=None):
+def translate(body, p, consts=None, mir="", fn_name="mul_by_a"):
     """loop-free MIR over a fixed vocabulary of field operations -> list of paths
     (path condition as SMT Bool terms, SMT Int term for _0) plus shared definitions.
     Values: field elements and BigInt<4> are Int terms (canonical representative / integer value),
@@ -44,11 +45,22 @@ def translate(body, p, consts=None):
     n = [0]
     R = pow(2, 256, p)
 
-    def fresh(expr):
+    def fresh(expr, modulus=None):
         n[0] += 1
         name = "v%d" % n[0]
-        defs.append("(define-fun %s () Int (mod %s %d))" % (name, expr, p))
+        defs.append("(define-fun %s () Int (mod %s %d))" % (name, expr, modulus or p))
         return name
+
+    W = 2 ** 256
+    Rinv = pow(R, -1, p)
+
+    def promoted(k):
+        m_ = re.search(r"\nconst zorro::g1::<impl at [^>]*>::%s::promoted\[%s\]: &(?:ark_ff::)?BigInt<4> = \{(.*?)\n\}\n" % (fn_name, k), mir, re.S)
+        if not m_:
+            raise CannotEncode("promoted[%s] of %s not found" % (k, fn_name))
+        if re.search(r"_1 = const <(?:ark_ff::)?Fp<(?:ark_ff::)?MontBackend<(?:curve::zorro::)?fq::FqConfig, 4>, 4> as (?:ark_ff::)?PrimeField>::MODULUS;", m_.group(1)):
+            return str(p)
+        raise CannotEncode("promoted[%s] is not a constant of the vocabulary" % k)
 
     blocks = re.findall(r"\n\s*(bb\d+)(?: \(cleanup\))?: \{(.*?)\n\s*\}", body, re.S)
     if not blocks:
@@ -67,9 +79,23 @@ def translate(body, p, consts=None):
 
         def val(tok):
             tok = re.sub(r"^(move|copy)\s+", "", tok.strip())
+            mp = re.fullmatch(r"const <.*?>::%s::promoted\[(\d+)\]" % fn_name, tok)
+            if mp:
+                return promoted(mp.group(1))
             if tok not in env:
                 raise CannotEncode("use of unknown local %s" % tok)
-            return env[tok]
+            v = env[tok]
+            if isinstance(v, tuple):  # ("ref", local): a mutable borrow, read through
+                return val(v[1])
+            return v
+
+        def target(tok):
+            # the local a `&mut` argument points to
+            tok = re.sub(r"^(move|copy)\s+", "", tok.strip())
+            v = env.get(tok)
+            if isinstance(v, tuple):
+                return v[1]
+            raise CannotEncode("mutating call on something that is not a tracked &mut borrow: %s" % tok)
 
         text = blocks[order[cur]][1]
         nxt = None
@@ -94,7 +120,13 @@ def translate(body, p, consts=None):
                 work.append((m.group(3), dict(env), cond + [c], steps + 1))
                 done = True
                 break
-            m = re.fullmatch(r"(_\d+) = &(?:mut )?(_\d+);", line) or re.fullmatch(r"(_\d+) = (?:move|copy) (_\d+);", line) or re.fullmatch(r"(_\d+) = &\(\*(_\d+)\);", line) or re.fullmatch(r"(_\d+) = (?:move|copy) \(\*(_\d+)\);", line)
+            m = re.fullmatch(r"(_\d+) = &mut (_\d+);", line)
+            if m:
+                if m.group(2) not in env:
+                    raise CannotEncode("borrow of unknown local %s" % m.group(2))
+                env[m.group(1)] = ("ref", m.group(2))
+                continue
+            m = re.fullmatch(r"(_\d+) = &(_\d+);", line) or re.fullmatch(r"(_\d+) = (?:move|copy) (_\d+);", line) or re.fullmatch(r"(_\d+) = &\(\*(_\d+)\);", line) or re.fullmatch(r"(_\d+) = (?:move|copy) \(\*(_\d+)\);", line)
             if m:
                 env[m.group(1)] = val(m.group(2))
                 continue
@@ -120,6 +152,40 @@ def translate(body, p, consts=None):
             m = re.fullmatch(r"(_\d+) = BigInt::<4>::(one|zero)\(\) -> \[return: (bb\d+), unwind[^\]]*\];", line)
             if m:
                 env[m.group(1)] = "1" if m.group(2) == "one" else "0"
+                nxt = m.group(3)
+                break
+            m = re.fullmatch(r"(_\d+) = <&?(?:ark_ff::)?BigInt<4> as PartialOrd>::(ge|gt|le|lt)\((.*)\) -> \[return: (bb\d+), unwind[^\]]*\];", line)
+            if m:
+                a = [val(t) for t in m.group(3).split(", ")]
+                env[m.group(1)] = "(%s %s %s)" % ({"ge": ">=", "gt": ">", "le": "<=", "lt": "<"}[m.group(2)], a[0], a[1])
+                nxt = m.group(4)
+                break
+            m = re.fullmatch(r"(_\d+) = <(?:ark_ff::)?BigInt<4> as (?:ark_ff::)?BigInteger>::(mul2|div2|sub_with_borrow|add_with_carry)\((.*)\) -> \[return: (bb\d+), unwind[^\]]*\];", line)
+            if m:
+                dst, op, args, ret = m.groups()
+                parts = args.split(", ")
+                tgt = target(parts[0])
+                cur_v = val(tgt)
+                if op == "mul2":
+                    env[dst] = "(>= (* 2 %s) %d)" % (cur_v, W)
+                    env[tgt] = fresh("(* 2 %s)" % cur_v, W)
+                elif op == "div2":
+                    env[dst] = "true"
+                    env[tgt] = fresh("(div %s 2)" % cur_v, W)
+                elif op == "sub_with_borrow":
+                    o = val(parts[1])
+                    env[dst] = "(< %s %s)" % (cur_v, o)
+                    env[tgt] = fresh("(- %s %s)" % (cur_v, o), W)
+                else:
+                    o = val(parts[1])
+                    env[dst] = "(>= (+ %s %s) %d)" % (cur_v, o, W)
+                    env[tgt] = fresh("(+ %s %s)" % (cur_v, o), W)
+                nxt = ret
+                break
+            m = re.fullmatch(r"(_\d+) = (?:ark_ff::)?fp::montgomery_backend::<impl (?:ark_ff::)?Fp<(?:ark_ff::)?MontBackend<(?:curve::zorro::)?fq::FqConfig, 4>, 4>>::new_unchecked\((.*)\) -> \[return: (bb\d+), unwind[^\]]*\];", line)
+            if m:
+                # the argument is the raw Montgomery form: the element is t * 2^-256 mod p
+                env[m.group(1)] = fresh("(* %s %d)" % (val(m.group(2)), Rinv))
                 nxt = m.group(3)
                 break
             m = re.fullmatch(r"(_\d+) = <&?(?:ark_ff::)?BigInt<4> as PartialEq>::(eq|ne)\((.*)\) -> \[return: (bb\d+), unwind[^\]]*\];", line)
@@ -214,7 +280,7 @@ def main():
     body = m.group(1)
     queries = []
     try:
-        paths, defs = translate(body, p, consts)
+        paths, defs = translate(body, p, consts, mir, "mul_by_a")
         head = "(set-logic ALL)\n(declare-const x Int)\n(assert (and (<= 0 x) (< x %d)))\n" % p + "\n".join(defs) + "\n"
 
         def wrong(k):
@@ -231,7 +297,7 @@ def main():
     mb = re.search(r"\nfn zorro::g1::<impl at [^>]*>::add_b\(_1: " + FQ + r"\) -> " + FQ + r" \{(.*?)\n\}\n", mir, re.S)
     if mb:
         try:
-            bpaths, bdefs = translate(mb.group(1), p, consts)
+            bpaths, bdefs = translate(mb.group(1), p, consts, mir, "add_b")
             bhead = "(set-logic ALL)\n(declare-const x Int)\n(assert (and (<= 0 x) (< x %d)))\n" % p + "\n".join(bdefs) + "\n"
             alts = ["(and %s (not (= (mod %s %d) (mod (+ x %d) %d))))" % (" ".join(c) if c else "true", r_, p, int(consts["b"]), p) for c, r_ in bpaths]
             queries.append(("overridden add_b(x) = x + COEFF_B for every x in [0,p)", bhead + "(assert (or %s))\n(check-sat)\n" % " ".join(alts), "unsat", True))
@@ -243,6 +309,8 @@ def main():
         ("declared COFACTOR is 1", "(= %d 1)" % (sum(v << (64 * i) for i, v in enumerate(consts["cofactor"])))),
         ("declared COFACTOR_INV is 1", "(= %d 1)" % int(consts["cofactor_inv"])),
         ("scalar-field modulus is 2^255 - 19", "(= %d (- %d 19))" % (r_mod, 2 ** 255)),
+        ("every exported scalar-field item of the zorro module (Fr, FrConfig, CurveConfig::ScalarField) has the modulus 2^255 - 19", "(and (= %d %d) (= %d %d))" % (int(consts.get("r_frconfig", -1)), r_mod, int(consts.get("r_curveconfig", -1)), r_mod)),
+        ("every exported base-field item of the zorro module (Fq, FqConfig, CurveConfig::BaseField) has the modulus p", "(and (= %d %d) (= %d %d))" % (int(consts.get("p_fqconfig", -1)), p, int(consts.get("p_curveconfig", -1)), p)),
         ("coefficients and generator coordinates are reduced (below p)", "(and (< %d %d) (< %d %d) (< %d %d) (< %d %d))" % (a, p, bb, p, gx, p, gy, p)),
         ("Hasse bound: |r - (p + 1)| <= 2 sqrt(p), i.e. (r - p - 1)^2 <= 4 p (necessary for #E(F_p) = r)", "(<= (* (- %d %d 1) (- %d %d 1)) (* 4 %d))" % (r_mod, p, r_mod, p, p)),
     ]
